@@ -28,7 +28,8 @@ SPEC = {
             "fxprof-processed-profile/src/resource_table.rs", "fxprof-processed-profile/src/native_symbols.rs", "fxprof-processed-profile/src/global_lib_table.rs",
             "fxprof-processed-profile/src/string_table.rs", "fxprof-processed-profile/src/thread_string_table.rs", "fxprof-processed-profile/src/marker_table.rs", "fxprof-processed-profile/src/category.rs",
             "fxprof-processed-profile/src/profile.rs::sorted_threads,add_marker,set_marker_stack,handle_for_stack,handle_for_native_symbol,handle_for_category,handle_for_subcategory,"
-            "handle_for_frame_with_label_internal,handle_for_frame_with_address_internal,handle_for_frame_with_address_and_symbol_internal,add_process,add_thread,make_unique_pid_or_tid"],
+            "handle_for_frame_with_label_internal,handle_for_frame_with_address_internal,handle_for_frame_with_address_and_symbol_internal,add_process,add_thread,make_unique_pid_or_tid,"
+            "handle_for_stack_frames,add_allocation_sample", "fxprof-processed-profile/src/process.rs::thread_handle_for_allocations"],
     "C04": ["fxprof-processed-profile/src/sample_table.rs", "fxprof-processed-profile/src/counters.rs", "fxprof-processed-profile/src/cpu_delta.rs"],
     "C05": ["samply-symbols/src/symbol_map_object.rs::new,lookup_relative_address,lookup_sync,file_offset_to_svma,name", "samply-symbols/src/jitdump.rs::lookup_sync,lookup_relative_address",
             "samply-symbols/src/breakpad/symbol_map.rs::lookup_sync"],
